@@ -83,13 +83,19 @@ def run_parse(src, tol, limit=WATCHDOG_S):
         signal.setitimer(signal.ITIMER_VIRTUAL, 0)
 
 
-def judge(src, tol):
-    """-> (outcome class, violation or None)"""
+HANG_TEXT = 'no result within %d s of CPU time (after a first attempt limited to %d s)' % (WATCHDOG_S * 2, WATCHDOG_S)
+
+
+def judge(src, tol, confirm=True):
+    """-> (outcome class, violation or None).  A hang is reported only after a second attempt with twice the CPU
+    budget also fails (confirm=True, exploration).  A replay re-checks with the first budget only: an input that
+    needed more than 2x the budget reliably needs more than 1x, so borderline timings cannot make the replay flaky."""
     kind, info, r = run_parse(src, tol)
     if kind == 'hang':
-        kind, info, r = run_parse(src, tol, WATCHDOG_S * 2)     # confirm before reporting
+        if confirm:
+            kind, info, r = run_parse(src, tol, WATCHDOG_S * 2)     # confirm before reporting
         if kind == 'hang':
-            return 'hang', ('hang', 'terminates', info)
+            return 'hang', ('hang', 'terminates', HANG_TEXT)
     if kind == 'ok':
         T = types()
         if not isinstance(r, T['TexNode']):
@@ -187,7 +193,7 @@ def run_shard(shard):
 
 def replay(case):
     setup()
-    cls, bad = judge(case['src'], case['tolerance'])
+    cls, bad = judge(case['src'], case['tolerance'], confirm=False)
     if bad is None:
         return []
     return [{'sub': bad[0], 'expected': bad[1], 'observed': bad[2]}]
